@@ -226,7 +226,7 @@ def aggregate_transitions(cx, nmol):
     # common rotation of all dipoles (about each Cartesian axis)
     c_, s_ = cx.real("rot.c", 0.3, 0.9), cx.real("rot.s", 0.3, 0.9)
     if cx.sym:
-        cx.assume(c_ * c_ + s_ * s_ == 1, "rotation: c^2 + s^2 = 1")
+        cx.unit_circle(c_, s_)
     else:
         nrm = (c_ * c_ + s_ * s_) ** 0.5
         c_, s_ = c_ / nrm, s_ / nrm
